@@ -41,6 +41,7 @@ type Event struct {
 	Pf     int        `json:"pf"`
 	Allocs int        `json:"allocs"`
 	Noobs  int        `json:"noobs"`
+	preObs []ViewObs  // projection taken earlier (see emitObserved)
 }
 
 const Sentinel = 111
@@ -147,12 +148,14 @@ func (w *World) emit(e *Event) {
 	if e.Map == nil {
 		e.Map = [][2]int64{}
 	}
-	if e.Op != "Reset" && !w.NoObs {
+	if e.preObs != nil {
+		e.Obs = e.preObs
+	} else if e.Op != "Reset" && !w.NoObs {
 		e.Obs, e.Pf = w.project()
 	} else {
 		e.Obs = []ViewObs{}
 	}
-	if w.NoObs {
+	if w.NoObs && e.preObs == nil {
 		e.Noobs = 1
 	}
 	e.Tid = w.tid
@@ -218,6 +221,13 @@ func (w *World) Reset() {
 }
 
 func (w *World) Case(key string) { w.Cases[key] = struct{}{} }
+
+// emitObserved writes an event whose projection was taken earlier (observations buffered during a burst in which
+// nothing may slow the calls down); it is still what the real buffer showed at that moment.
+func (w *World) emitObserved(e *Event, obs []ViewObs) {
+	e.preObs = obs
+	w.emit(e)
+}
 
 func (w *World) Alloc(ty string, ch, l, k int) string {
 	var nv View
